@@ -178,13 +178,13 @@ func (g *Grid) centreOf(level uint, axis int, f float64) (int64, bool) {
 
 // Result of one call of snap.SnapPolygon.
 type Result struct {
-	Panic    string // "" | OutsideGrid | NoPointsFound | PartialRingsOnStack | IndexOutOfRange | SliceBounds | Hang | Other
-	PanicMsg string
-	Raw      map[int][]geom.Polygon
-	ByID     map[int][][][]Pt // integer pixel centres
-	NotCentre []string        // returned floats that are not the image of a pixel centre
-	Dur      time.Duration
-	Stack    string // goroutine stack at the panic
+	Panic     string // "" | OutsideGrid | NoPointsFound | PartialRingsOnStack | IndexOutOfRange | SliceBounds | Hang | Other
+	PanicMsg  string
+	Raw       map[int][]geom.Polygon
+	ByID      map[int][][][]Pt // integer pixel centres
+	NotCentre []string         // returned floats that are not the image of a pixel centre
+	Dur       time.Duration
+	Stack     string // goroutine stack at the panic
 }
 
 func classifyPanic(r any) (string, string) {
